@@ -1,8 +1,414 @@
-//! C02 — not built yet.
+//! C02 — interrupt, NMI, HALT and prefix sequencing follow the Z80 rules.
+//! Uses the recording bus, real-code runner and Lean driver of C01 (harness/src/c01.rs) with scripted
+//! INT/NMI line levels and interrupt bus bytes per instruction boundary. Two things are checked at
+//! every boundary: (1) the real code's complete post-state and bus trace equal the reference model's,
+//! (2) the property's own predicates hold on the real observations (independent of the model).
+use crate::c01::*;
 use crate::util::*;
 
-pub fn run(_o: &Opts) -> Report {
+/// instructions that matter for sequencing
+const SEQ_ITEMS: [&[u8]; 30] = [
+    &[0xFB],             // EI
+    &[0xFB],
+    &[0xF3],             // DI
+    &[0x76],             // HALT
+    &[0x76],
+    &[0x00],
+    &[0xDD],
+    &[0xFD],
+    &[0xDD, 0xDD],
+    &[0xFD, 0xDD, 0xFD],
+    &[0xDD, 0xFD, 0xED],
+    &[0xED, 0x45],       // RETN and its seven mirrors (ED 4D = RETI)
+    &[0xED, 0x4D],
+    &[0xED, 0x55],
+    &[0xED, 0x5D],
+    &[0xED, 0x65],
+    &[0xED, 0x6D],
+    &[0xED, 0x75],
+    &[0xED, 0x7D],
+    &[0xED, 0x46],       // IM 0/1/2 and mirrors
+    &[0xED, 0x56],
+    &[0xED, 0x5E],
+    &[0xED, 0x4E],
+    &[0xED, 0x76],
+    &[0xED, 0x7E],
+    &[0xED, 0x57],       // LD A,I (PV = IFF2)
+    &[0xED, 0x5F],       // LD A,R
+    &[0xDD, 0x76],       // prefixed HALT
+    &[0xC9],             // RET
+    &[0x3C],             // INC A
+];
+
+fn seq_program(rng: &mut Rng, n: usize) -> Vec<u8> {
+    let mut v = vec![];
+    for _ in 0..n {
+        if rng.chance(1, 6) {
+            v.extend(random_instr(rng));
+        } else {
+            { let it: &[u8] = *rng.pick(&SEQ_ITEMS[..]); v.extend_from_slice(it); }
+        }
+    }
+    v
+}
+
+/// memory furniture: short service routines at 0x0038 / 0x0066 and an IM 2 table at I = 0x80
+fn furniture(rng: &mut Rng, mem: &mut Vec<(u16, Vec<u8>)>) {
+    let isr = |rng: &mut Rng| -> Vec<u8> {
+        let mut v = vec![];
+        for _ in 0..rng.range(0, 2) {
+            { let it: &[u8] = *rng.pick(&SEQ_ITEMS[..]); v.extend_from_slice(it); }
+        }
+        v.extend_from_slice(*rng.pick(&[&[0xFB, 0xED, 0x4D][..], &[0xED, 0x45][..], &[0xFB, 0xC9][..], &[0xC9][..]]));
+        v
+    };
+    let a = isr(rng);
+    let b = isr(rng);
+    let c = isr(rng);
+    mem.push((0x0038, a));
+    mem.push((0x0066, b));
+    mem.push((0x8000, vec![0x91; 258]));
+    mem.push((0x9191, c));
+}
+
+fn schedule(rng: &mut Rng, n: usize) -> Vec<Step> {
+    let mut v = vec![];
+    let mut int = false;
+    for _ in 0..n {
+        if rng.chance(1, 3) {
+            int = !int;
+        }
+        let nmi = rng.chance(1, 14);
+        v.push(Step { lines: (int as u8) | ((nmi as u8) << 1), bus: edge8(rng) });
+    }
+    v
+}
+
+fn program_case(rng: &mut Rng) -> Case {
+    let mut st = random_state(rng);
+    st.w[PC] = 0x1000 + (rng.u16() % 0x6000);
+    if rng.bool() {
+        st.w[IR] = 0x8000 | (st.w[IR] & 0xFF);
+    }
+    if rng.chance(2, 3) {
+        st.w[SP] = 0xA000 + (rng.u16() & 0x0FFF);
+    }
+    st.ff = rng.u8() & 0x0F;
+    if rng.chance(1, 2) {
+        st.ff &= !FF_HALTED;
+    }
+    st.im = rng.below(3) as u8;
+    st.ap = if rng.chance(1, 5) { rng.range(1, 4) as u8 } else { 0 };
+    if st.ap != 0 && rng.chance(4, 5) {
+        st.ff |= FF_SKIP; // the reachable combination
+    }
+    let n = rng.range(4, 28) as usize;
+    let mut mem = vec![];
+    furniture(rng, &mut mem);
+    let mut prog = seq_program(rng, n);
+    if st.ff & FF_HALTED != 0 {
+        prog.insert(0, 0x76);
+    }
+    mem.push((st.w[PC], prog));
+    Case { st, seed: rng.next() as u32 & 0xFFFF, io: vec![], mem, steps: schedule(rng, n) }
+}
+
+/// every control state x every line combination x a list of boundary instructions, one step each
+fn matrix_cases(rng: &mut Rng) -> Vec<Case> {
+    let firsts: [&[u8]; 14] = [
+        &[0x00],
+        &[0xFB],
+        &[0xF3],
+        &[0x76],
+        &[0xDD, 0x00],
+        &[0xFD, 0xDD],
+        &[0xDD, 0xED],
+        &[0xED, 0x45],
+        &[0xED, 0x4D],
+        &[0xED, 0x5E],
+        &[0xCB, 0x47],
+        &[0xDD, 0xCB, 0x01, 0x46],
+        &[0xC9],
+        &[0xED, 0x57],
+    ];
+    let mut v = vec![];
+    for ff in 0..16u8 {
+        for ap in 0..5u8 {
+            for im in 0..3u8 {
+                for lines in 0..4u8 {
+                    for first in firsts.iter() {
+                        let mut st = random_state(rng);
+                        st.w[PC] = 0x1000 + (rng.u16() % 0x6000);
+                        if rng.bool() {
+                            st.w[IR] = 0x8000 | (st.w[IR] & 0xFF);
+                        }
+                        st.ff = ff;
+                        st.ap = ap;
+                        st.im = im;
+                        let mut mem = vec![];
+                        furniture(rng, &mut mem);
+                        let mut code = first.to_vec();
+                        if ff & FF_HALTED != 0 && rng.chance(3, 4) {
+                            code = vec![0x76];
+                        }
+                        code.extend_from_slice(&[edge8(rng), edge8(rng)]);
+                        mem.push((st.w[PC], code));
+                        v.push(Case {
+                            st,
+                            seed: rng.next() as u32 & 0xFFFF,
+                            io: vec![],
+                            mem,
+                            steps: vec![Step { lines, bus: edge8(rng) }],
+                        });
+                    }
+                }
+            }
+        }
+    }
+    v
+}
+
+struct Acc {
+    int: bool,
+    nmi: bool,
+    /// the two stack writes before the first opcode fetch: (addr, value)
+    pushes: Vec<(u16, u8)>,
+    /// address and byte of the first 4-T fetch
+    fetch: Option<(u16, u8)>,
+    /// bytes of the vector read after the interrupt acknowledge (IM 2)
+    vector: Vec<u8>,
+}
+
+fn parse_addr_val(t: &str) -> (u16, u8) {
+    let a = u16::from_str_radix(&t[1..5], 16).unwrap_or(0);
+    let v = u8::from_str_radix(t.get(6..).unwrap_or("0"), 16).unwrap_or(0);
+    (a, v)
+}
+
+/// what the real trace shows about interrupt acceptance
+fn acceptance(evs: &[String]) -> Acc {
+    let mut acc = Acc { int: false, nmi: false, pushes: vec![], fetch: None, vector: vec![] };
+    let mut i = 0;
+    let mut seen_k = false;
+    while i < evs.len() {
+        let t = &evs[i];
+        if t.starts_with('M') && t.ends_with(":4") {
+            let a = u16::from_str_radix(&t[1..5], 16).unwrap_or(0);
+            let v = evs.get(i + 1).filter(|r| r.starts_with('R')).map(|r| parse_addr_val(r).1).unwrap_or(0);
+            acc.fetch = Some((a, v));
+            break;
+        }
+        if t.starts_with('W') {
+            acc.pushes.push(parse_addr_val(t));
+        }
+        if t.starts_with('K') {
+            seen_k = true;
+        } else if seen_k && t.starts_with('R') {
+            acc.vector.push(parse_addr_val(t).1);
+        }
+        if t == "I7" {
+            acc.int = true;
+        }
+        i += 1;
+    }
+    // an NMI entry is five 1-T cycles, two stack writes, then the fetch at 0x0066, without the 7-T wait
+    acc.nmi = !acc.int && acc.pushes.len() == 2 && matches!(acc.fetch, Some((0x0066, _)));
+    acc
+}
+
+fn inc_r7(r: u8) -> u8 {
+    (r.wrapping_add(1) & 0x7F) | (r & 0x80)
+}
+
+/// The property's predicates on one boundary of the real code. Returns (name, detail) of the first broken one.
+fn predicates(label: &str, reachable: bool, pre: &St, s: &Step, post: &St, evs: &[String]) -> Option<(&'static str, String)> {
+    let a = acceptance(evs);
+    let iff1 = pre.ff & FF_IFF1 != 0;
+    let skip = pre.ff & FF_SKIP != 0;
+    let halted = pre.ff & FF_HALTED != 0;
+    if a.int && !(iff1 && !skip && s.lines & 1 != 0) {
+        return Some(("int-only-when-enabled", format!("INT accepted with iff1={} skip={} int-line={}", iff1, skip, s.lines & 1)));
+    }
+    if skip && (a.int || a.nmi) {
+        return Some((
+            "no-accept-after-ei-di-or-inside-prefix-chain",
+            format!("{} accepted although the previous step was EI/DI or a DD/FD prefix (pending prefix {})", if a.int { "INT" } else { "NMI" }, pre.ap),
+        ));
+    }
+    if reachable && pre.ap != 0 && (a.int || a.nmi) {
+        // `reachable`: the pre-state was produced by running emulate (or satisfies the invariant
+        // "pending prefix implies skip_interrupt"), not injected through the hooks
+        return Some((
+            "no-accept-inside-prefix-chain",
+            format!("{} accepted between a prefix (pending {}) and its opcode", if a.int { "INT" } else { "NMI" }, pre.ap),
+        ));
+    }
+    if a.int || a.nmi {
+        let ret = pre.w[PC].wrapping_add(halted as u16);
+        let sp = pre.w[SP];
+        let want = vec![(sp.wrapping_sub(1), (ret >> 8) as u8), (sp.wrapping_sub(2), ret as u8)];
+        if a.pushes != want {
+            return Some(("pushes-next-instruction-address", format!("stack writes {:x?}, expected {:x?}", a.pushes, want)));
+        }
+        let target = if a.nmi {
+            0x0066
+        } else if pre.im < 2 {
+            0x0038
+        } else if a.vector.len() == 2 {
+            u16::from_le_bytes([a.vector[0], a.vector[1]])
+        } else {
+            return Some(("im2-reads-vector", format!("vector bytes read: {:x?}", a.vector)));
+        };
+        let (fa, fb) = a.fetch.unwrap_or((0xFFFF, 0));
+        if fa != target {
+            return Some(("continues-at-vector", format!("first fetch at {:04x}, expected {:04x}", fa, target)));
+        }
+        // the first instruction of the service routine runs in the same emulate() call; flip-flop
+        // predicates are evaluated unless that instruction itself changes them
+        let touches_iff = matches!(fb, 0xF3 | 0xFB | 0xED | 0xDD | 0xFD);
+        if !touches_iff {
+            if post.ff & FF_IFF1 != 0 {
+                return Some(("acceptance-clears-iff1", "IFF1 still set".into()));
+            }
+            if a.int && post.ff & FF_IFF2 != 0 {
+                return Some(("int-clears-iff2", "IFF2 still set after INT".into()));
+            }
+            if a.nmi && (post.ff & FF_IFF2) != (pre.ff & FF_IFF2) {
+                return Some(("nmi-preserves-iff2", "IFF2 changed by NMI".into()));
+            }
+        }
+        if !matches!(fb, 0x76 | 0xDD | 0xFD) && post.ff & FF_HALTED != 0 {
+            return Some(("acceptance-releases-halt", "still halted".into()));
+        }
+        return None;
+    }
+    // no acceptance
+    if halted && pre.ap == 0 {
+        if let Some((fa, 0x76)) = a.fetch {
+            let mut want = pre.clone();
+            want.w[IR] = (pre.w[IR] & 0xFF00) | inc_r7(pre.w[IR] as u8) as u16;
+            want.lq = pre.q;
+            want.q = 0;
+            want.ff &= !FF_SKIP;
+            let fetches = evs.iter().filter(|t| t.starts_with('M')).count();
+            if fa != pre.w[PC] || *post != want || fetches != 1 {
+                return Some(("halt-spins", format!("halted CPU: post {} expected {} ({} memory cycles)", post.text(), want.text(), fetches)));
+            }
+        }
+    }
+    if matches!(label, "ed45" | "ed4d" | "ed55" | "ed5d" | "ed65" | "ed6d" | "ed75" | "ed7d") {
+        let iff2 = pre.ff & FF_IFF2 != 0;
+        if (post.ff & FF_IFF1 != 0) != iff2 || (post.ff & FF_IFF2 != 0) != iff2 {
+            return Some(("retn-reti-copy-iff2", format!("IFF2 was {}, afterwards ff={:x}", iff2, post.ff)));
+        }
+    }
+    None
+}
+
+fn run_cases(model: &mut Model, rep: &mut Report, cases: &[Case], hist: &str) {
+    let mut lines = vec![];
+    for c in cases {
+        lines.extend(c.lines());
+    }
+    let answers = model.ask_many(&lines);
+    let mut k = 0;
+    let mut failures = vec![];
+    let mut pred_failures: Vec<(String, String, String)> = vec![];
+    for c in cases {
+        let n = c.steps.len();
+        let r = check_case(Mode::C02, c, &answers[k..k + n], &mut |i, label, pre, post, evs| {
+            rep.eval();
+            let a = acceptance(evs);
+            let kind = if a.int {
+                "int accepted"
+            } else if a.nmi {
+                "nmi accepted"
+            } else if c.steps[i].lines != 0 {
+                "line active, not accepted"
+            } else {
+                "lines idle"
+            };
+            rep.count(hist, kind);
+            let t: u64 = evs.iter().map(|e| ev_tstates(e)).sum();
+            rep.class(format!("{} ff={:x} ap={} lines={} -> {} T={}", label, pre.ff, pre.ap, c.steps[i].lines, kind, t));
+            let reachable = i > 0 || c.st.ap == 0 || c.st.ff & FF_SKIP != 0;
+            if let Some((name, detail)) = predicates(label, reachable, pre, &c.steps[i], post, evs) {
+                let mut cut = c.clone();
+                cut.steps.truncate(i + 1);
+                pred_failures.push((name.to_string(), format!("{} (step {}: {})", detail, i, label), cut.text()));
+            }
+        });
+        k += n;
+        if let Some(f) = r {
+            failures.push(f);
+        }
+    }
+    for (name, detail, text) in pred_failures {
+        let key = format!("C02/pred={}", name);
+        if rep.has_key(&key) {
+            rep.count("repeat_violations", key);
+            continue;
+        }
+        rep.violation(Violation {
+            kind: Kind::SpecViolated,
+            key,
+            what: detail.clone(),
+            correspondence: "C02 predicates on the real code's observations".into(),
+            case: J::obj(vec![("text", J::s(text))]),
+            implementation: detail,
+            expected: format!("predicate {} holds", name),
+        });
+    }
+    for f in failures {
+        record(model, rep, Mode::C02, f);
+    }
+}
+
+pub fn run(o: &Opts) -> Report {
     let mut rep = Report::new("C02");
-    rep.notes.push("not built yet".into());
+    rep.rule = "(a) matrix, exhaustive over the control state: IFF1 x IFF2 x halted x skip_interrupt x pending prefix \
+{none,CB,DD,ED,FD} x IM {0,1,2} x INT/NMI line levels {4} x 14 boundary instructions (NOP, EI, DI, HALT, DD-prefixed, \
+prefix chains, RETN, RETI, IM 2, CB, DDCB, RET, LD A,I), random registers, one Z80::emulate each; (b) seeded random \
+programs of 4-28 boundaries biased to EI/DI/HALT/prefix chains/IM n/RETN/RETI with service routines at 0038/0066 \
+and an IM 2 table, scripted INT/NMI levels and bus byte per boundary, state carried. Per boundary: full post-state \
+and full bus trace against the reference model, plus the property's predicates on the real observations \
+(acceptance only when enabled / not after EI,DI / not inside a prefix chain; pushes, vector, IFF effects, HALT \
+release; halted CPU spins; RETN/RETI copy IFF2). distinct/non-trivial = distinct (instruction or interrupt kind, \
+control state, line levels, outcome, T-states)"
+        .into();
+    let mut model = Model::spawn(&o.model, "C01");
+    if let Some(text) = &o.replay {
+        match Case::parse(text) {
+            Some(c) => {
+                rep.sample(J::s(c.text()));
+                run_cases(&mut model, &mut rep, &[c], "boundaries_replay");
+            }
+            None => rep.notes.push(format!("cannot parse replay case: {}", text)),
+        }
+        return rep;
+    }
+    let mut rng = Rng::new(o.seed ^ 0xC02);
+    let rounds = o.n(1, 20);
+    for _ in 0..rounds {
+        let cases = matrix_cases(&mut rng);
+        for chunk in cases.chunks(256) {
+            run_cases(&mut model, &mut rep, chunk, "boundaries_matrix");
+        }
+    }
+    let programs = o.n(1500, 120_000);
+    let mut batch = vec![];
+    for p in 0..programs {
+        let c = program_case(&mut rng);
+        if p < 2 {
+            rep.sample(J::s(c.text()));
+        }
+        batch.push(c);
+        if batch.len() == 64 || p + 1 == programs {
+            run_cases(&mut model, &mut rep, &batch, "boundaries_programs");
+            batch.clear();
+        }
+    }
+    rep.extra.push(("programs".into(), J::I(programs as i64)));
+    rep.extra.push(("model_requests".into(), J::I(model.requests as i64)));
     rep
 }
